@@ -47,6 +47,9 @@ struct Case {
     t0: Instant,
     keys: Vec<Key>,
     fired: Rc<RefCell<Vec<u64>>>,
+    // full execution order of one run: ('d' deferred call | 't' timer callback, id, Core::now in ns)
+    order: Rc<RefCell<Vec<(char, u64, i128)>>>,
+    extra: Option<String>,
     last_ne: Option<i64>,
 }
 
@@ -83,9 +86,14 @@ impl Case {
         let (kf, kmax, kmin, kany) = (self.fk(kref), self.maxk(kref), self.mink(kref), self.key(kref));
         let s = self.s.as_mut().unwrap();
         let num = |i: usize| ws[i].parse::<i64>().unwrap();
-        let cb = |id: u64, fired: &Rc<RefCell<Vec<u64>>>| {
+        let order = self.order.clone();
+        let cb = move |id: u64, fired: &Rc<RefCell<Vec<u64>>>| {
             let f = fired.clone();
-            move |_s: &mut Stakker| f.borrow_mut().push(id)
+            let o = order.clone();
+            move |s: &mut Stakker| {
+                f.borrow_mut().push(id);
+                o.borrow_mut().push(('t', id, ns_since(t0, s.now())));
+            }
         };
         match ws[0] {
             "add" => {
@@ -131,7 +139,13 @@ impl Case {
                     }
                 };
                 self.fired.borrow_mut().clear();
+                self.order.borrow_mut().clear();
                 s.run(inst(t0, at), false);
+                let mut x = String::from("X");
+                for (k, id, now) in self.order.borrow().iter() {
+                    x.push_str(&format!(" {}{}@{}", k, id, now));
+                }
+                self.extra = Some(x);
                 let mut out = String::from("F");
                 for id in self.fired.borrow().iter() {
                     out.push_str(&format!(" {}", id));
@@ -157,6 +171,12 @@ impl Case {
                 (format!("D {}", d.as_nanos()), Key::None)
             }
             "now" => (format!("D {}", ns_since(t0, s.now())), Key::None),
+            "defer" => {
+                let o = self.order.clone();
+                let id = num(1) as u64;
+                s.defer(move |s: &mut Stakker| o.borrow_mut().push(('d', id, ns_since(t0, s.now()))));
+                ("U".to_string(), Key::None)
+            }
             "pokeseq" => {
                 s.verif_timers_poke(Some(num(1) as u32), None);
                 ("U".to_string(), Key::None)
@@ -204,6 +224,8 @@ fn main() {
                     t0: base,
                     keys: Vec::new(),
                     fired: Rc::new(RefCell::new(Vec::new())),
+                    order: Rc::new(RefCell::new(Vec::new())),
+                    extra: None,
                     last_ne: None,
                 });
             }
@@ -224,6 +246,9 @@ fn main() {
                         writeln!(out, "{}", text).unwrap();
                         let d = c.s.as_ref().unwrap().verif_timers_dump();
                         writeln!(out, "S {}", d).unwrap();
+                        if let Some(x) = c.extra.take() {
+                            writeln!(out, "{}", x).unwrap();
+                        }
                     }
                     Err(_) => {
                         dead = true;
